@@ -61,7 +61,7 @@ let run_kzg10 c =
          obs1 (k "c") "G1" (f_to_str cm);
          obs (k "rand") "F" (fs_to rd);
          comms.(i) <- Some (cm, rd)
-       | _ -> obs1 (k "draws") "N" "0");
+       | _ -> ());   (* draws of a refused commit are not part of any property *)
       let v = Poly.eval fo p z in
       obs1 (k "v") "F" (f_to_str v);
       points.(i) <- z; values.(i) <- v;
@@ -427,6 +427,8 @@ let run_pc_marlin c =
                        | Some (`Batch (_, p2, _)) -> pv := p2 | _ -> ok := false)
                    | "sponge_pre" -> ()
                    | "vperm" -> vperm := List.map int_of_string args
+                   | "drop_eval" -> ()
+                   | "drop_comm" -> let i = int_of_string (arg 0) in vperm := List.filter (fun x -> x <> i) !vperm
                    | "drop_query" -> let k = int_of_string (arg 0) in
                      if k < List.length !tr3 then tr3 := List.filteri (fun i _ -> i <> k) !tr3 else ok := false
                    | _ -> ok := false);
@@ -440,6 +442,7 @@ let run_pc_marlin c =
                     else begin
                       let evm = List.mapi (fun i (key, v) ->
                           List.fold_left (fun v (k, dd) -> if k = i then fo.Field.fadd v dd else v) v !deltas |> fun v -> (key, v)) evm in
+                      let evm = if kind = "drop_eval" then List.filteri (fun i _ -> i <> int_of_string (arg 0)) evm else evm in
                       let vtape = fs_of c (Printf.sprintf "vtape.%d" t) in
                       obs1 name "S" (decision (match Marlin.mbatch_check fo vk (List.map (fun i -> cms.(i)) !vperm) qs evm !pv mchal vtape with
                           | Result.Ok ((b, _), _) -> Result.Ok b | Result.Err e -> Result.Err e | Result.Panic -> Result.Panic))
